@@ -323,4 +323,260 @@ theorem addNode_consistent (g g' : Genome W) (reg reg' : Reg W) (o : MutOpts W) 
     (h : mutateAddNode g reg o rs = .ok ((g', reg', res), rs')) : Inv reg' (g' :: gs) :=
   Inv.of_local ((mutateAddNode_steps g g' reg reg' o rs rs' res h).inv (hinv.local hg))
 
+/-! ### C03, second clause: what is issued is fresh; counters are monotone -/
+
+/-- the registry within a generation whose counters started at `(bi, bn)`: counters never fall below the start, and
+    everything recorded in this generation was issued above the start -/
+structure GenInv (bi bn : Int) (reg : Reg W) : Prop where
+  innMono : bi ≤ reg.nextInn
+  nodeMono : bn ≤ reg.nextNode
+  recInns : ∀ k ∈ regInns reg, bi < k
+  recNodes : ∀ k ∈ regNodes reg, bn < k
+
+/-- at the start of a generation (no records) `GenInv` holds for the current counters -/
+theorem GenInv.start (reg : Reg W) (h : reg.records = []) : GenInv reg.nextInn reg.nextNode reg :=
+  ⟨Int.le_refl _, Int.le_refl _, by simp [regInns_def, h], by simp [regNodes_def, h]⟩
+
+/-- the new registry keeps all old records (lookups of later requests still find them) -/
+def RegExtends (a b : Reg W) : Prop := ∃ suf, b.records = a.records ++ suf
+theorem RegExtends.refl (a : Reg W) : RegExtends a a := ⟨[], by simp⟩
+theorem RegExtends.trans {a b c : Reg W} (h1 : RegExtends a b) (h2 : RegExtends b c) : RegExtends a c := by
+  obtain ⟨s1, e1⟩ := h1; obtain ⟨s2, e2⟩ := h2
+  exact ⟨s1 ++ s2, by rw [e2, e1, List.append_assoc]⟩
+
+theorem resolveLink_issued {bi bn : Int} {reg reg' : Reg W} (hg : GenInv bi bn reg) (s d : Int) (r : Bool) (w : W) (tn k : Int)
+    (hres : resolveLink reg s d r w tn = (k, reg')) :
+    GenInv bi bn reg' ∧ bi < k ∧ reg.nextInn ≤ reg'.nextInn ∧ reg'.nextNode = reg.nextNode ∧ RegExtends reg reg' ∧
+    (k ∈ regInns reg ∨ (reg.nextInn < k ∧ k ≤ reg'.nextInn)) := by
+  unfold resolveLink at hres
+  split at hres
+  · rename_i i hf
+    obtain ⟨rfl, rfl⟩ := Prod.mk.inj hres
+    have hk := mem_regInns (List.mem_of_find?_eq_some hf) (inn_mem_recInns i)
+    exact ⟨hg, hg.recInns _ hk, Int.le_refl _, rfl, .refl _, .inl hk⟩
+  · simp only [Reg.nextInnovation] at hres
+    obtain ⟨rfl, rfl⟩ := Prod.mk.inj hres
+    have h1 := hg.innMono
+    refine ⟨⟨?_, hg.nodeMono, ?_, ?_⟩, by omega, ?_, rfl, ⟨[_], rfl⟩, .inr ⟨by omega, ?_⟩⟩
+    · simp only [Reg.store]; omega
+    · intro k hk
+      rw [regInns_store, List.mem_append] at hk
+      rcases hk with hk | hk
+      · exact hg.recInns k hk
+      · simp [recInns] at hk; omega
+    · intro k hk
+      rw [regNodes_store] at hk
+      simp only [if_neg (show ¬ ((2 : Nat) = 1) by decide), List.append_nil] at hk
+      exact hg.recNodes k hk
+    · simp only [Reg.store]; omega
+    · simp only [Reg.store]; omega
+
+theorem resolveNode_issued {bi bn : Int} {reg reg' : Reg W} (hg : GenInv bi bn reg) (s d o n k1 k2 : Int)
+    (hres : resolveNode reg s d o = ((n, k1, k2), reg')) :
+    GenInv bi bn reg' ∧ bi < k1 ∧ bi < k2 ∧ bn < n ∧ reg.nextInn ≤ reg'.nextInn ∧ reg.nextNode ≤ reg'.nextNode ∧ RegExtends reg reg' ∧
+    ((k1 ∈ regInns reg ∧ k2 ∈ regInns reg ∧ n ∈ regNodes reg) ∨
+     (reg.nextInn < k1 ∧ k1 < k2 ∧ k2 ≤ reg'.nextInn ∧ reg.nextNode < n ∧ n ≤ reg'.nextNode)) := by
+  unfold resolveNode at hres
+  split at hres
+  · rename_i i hf
+    obtain ⟨hnums, rfl⟩ := Prod.mk.inj hres
+    obtain ⟨rfl, hk⟩ := Prod.mk.inj hnums
+    obtain ⟨rfl, rfl⟩ := Prod.mk.inj hk
+    have hi := List.mem_of_find?_eq_some hf
+    obtain ⟨t1, _⟩ := (nodeMatch_iff _ _ _ i).mp (List.find?_some hf)
+    have m1 := mem_regInns hi (inn_mem_recInns i)
+    have m2 := mem_regInns hi (inn2_mem_recInns i t1)
+    have m3 := mem_regNodes hi t1
+    exact ⟨hg, hg.recInns _ m1, hg.recInns _ m2, hg.recNodes _ m3, Int.le_refl _, Int.le_refl _, .refl _, .inl ⟨m1, m2, m3⟩⟩
+  · simp only [Reg.nextInnovation, Reg.nextNodeId] at hres
+    obtain ⟨hnums, rfl⟩ := Prod.mk.inj hres
+    obtain ⟨rfl, hk⟩ := Prod.mk.inj hnums
+    obtain ⟨rfl, rfl⟩ := Prod.mk.inj hk
+    have h1 := hg.innMono
+    have h2 := hg.nodeMono
+    refine ⟨⟨?_, ?_, ?_, ?_⟩, by omega, by omega, by omega, ?_, ?_, ⟨[_], rfl⟩, .inr ⟨by omega, by omega, ?_, by omega, ?_⟩⟩
+    · simp only [Reg.store]; omega
+    · simp only [Reg.store]; omega
+    · intro k hk
+      rw [regInns_store, List.mem_append] at hk
+      rcases hk with hk | hk
+      · exact hg.recInns k hk
+      · simp [recInns] at hk; omega
+    · intro k hk
+      rw [regNodes_store, List.mem_append] at hk
+      rcases hk with hk | hk
+      · exact hg.recNodes k hk
+      · simp at hk; omega
+    all_goals (simp only [Reg.store]; omega)
+
+/-- what a mutation may add to a genome, relative to the counters `(bi, bn)` at the start of the generation: every
+    gene carries a binding the genome already had or a number above `bi`; every node a role the genome already had
+    or an id above `bn` -/
+def IssuedAbove (bi bn : Int) (g g' : Genome W) : Prop :=
+  (∀ x ∈ g'.genes, geneBind x ∈ gb g ∨ bi < x.inn) ∧ (∀ n ∈ g'.nodes, nodeRole n ∈ gr g ∨ bn < n.id)
+
+theorem IssuedAbove.refl (bi bn : Int) (g : Genome W) : IssuedAbove bi bn g g :=
+  ⟨fun _ hx => .inl (List.mem_map_of_mem hx), fun _ hn => .inl (List.mem_map_of_mem hn)⟩
+
+theorem IssuedAbove.trans {bi bn : Int} {g g1 g2 : Genome W} (h1 : IssuedAbove bi bn g g1) (h2 : IssuedAbove bi bn g1 g2) :
+    IssuedAbove bi bn g g2 := by
+  refine ⟨fun x hx => ?_, fun n hn => ?_⟩
+  · rcases h2.1 x hx with hb | hb
+    · obtain ⟨y, hy, e⟩ := List.mem_map.mp hb
+      rcases h1.1 y hy with hb' | hb'
+      · exact .inl (e ▸ hb')
+      · refine .inr ?_
+        have : y.inn = x.inn := congrArg (·.1) e
+        omega
+    · exact .inr hb
+  · rcases h2.2 n hn with hb | hb
+    · obtain ⟨y, hy, e⟩ := List.mem_map.mp hb
+      rcases h1.2 y hy with hb' | hb'
+      · exact .inl (e ▸ hb')
+      · refine .inr ?_
+        have : y.id = n.id := congrArg (·.1) e
+        omega
+    · exact .inr hb
+
+/-- the facts `issued_fresh` states about one structural mutation -/
+structure Issued (bi bn : Int) (g : Genome W) (reg : Reg W) (g' : Genome W) (reg' : Reg W) : Prop where
+  gen : GenInv bi bn reg'
+  innMono : reg.nextInn ≤ reg'.nextInn
+  nodeMono : reg.nextNode ≤ reg'.nextNode
+  ext : RegExtends reg reg'
+  above : IssuedAbove bi bn g g'
+
+theorem Issued.refl {bi bn : Int} {reg : Reg W} (hg : GenInv bi bn reg) (g : Genome W) : Issued bi bn g reg g reg :=
+  ⟨hg, Int.le_refl _, Int.le_refl _, .refl _, .refl _ _ _⟩
+
+theorem Issued.trans {bi bn : Int} {g g1 g2 : Genome W} {reg reg1 reg2 : Reg W} (h1 : Issued bi bn g reg g1 reg1)
+    (h2 : Issued bi bn g1 reg1 g2 reg2) : Issued bi bn g reg g2 reg2 :=
+  ⟨h2.gen, Int.le_trans h1.innMono h2.innMono, Int.le_trans h1.nodeMono h2.nodeMono, h1.ext.trans h2.ext, h1.above.trans h2.above⟩
+
+theorem LinkStep.issued {bi bn : Int} {g g' : Genome W} {reg reg' : Reg W} (hs : LinkStep g reg g' reg') (hg : GenInv bi bn reg) :
+    Issued bi bn g reg g' reg' := by
+  rcases hs with ⟨rfl, rfl⟩ | ⟨s, d, r, w, tn, k, gene, hres, hb, rfl⟩
+  · exact .refl hg _
+  · obtain ⟨hg', hk, hm, hn, hext, _⟩ := resolveLink_issued hg s d r w tn k hres
+    refine ⟨hg', hm, by omega, hext, ⟨fun x hx => ?_, fun n hn => .inl (List.mem_map_of_mem hn)⟩⟩
+    rcases (mem_geneInsert _ _ _).mp hx with rfl | hx'
+    · exact .inr (by have : x.inn = k := congrArg (·.1) hb; omega)
+    · exact .inl (List.mem_map_of_mem hx')
+
+theorem LinkSteps.issued {bi bn : Int} {g g' : Genome W} {reg reg' : Reg W} (hs : LinkSteps g reg g' reg') (hg : GenInv bi bn reg) :
+    Issued bi bn g reg g' reg' := by
+  induction hs with
+  | refl => exact .refl hg _
+  | step h1 _ ih => exact (h1.issued hg).trans (ih (h1.issued hg).gen)
+
+theorem NodeStep.issued {bi bn : Int} {g g' : Genome W} {reg reg' : Reg W} (hs : NodeStep g reg g' reg') (hg : GenInv bi bn reg) :
+    Issued bi bn g reg g' reg' := by
+  rcases hs with ⟨e1, e2, rfl⟩ | ⟨old, n, k1, k2, node, gene1, gene2, g1, hmem, hres, e1, e2, hb1, hb2, hn, rfl⟩
+  · refine ⟨hg, Int.le_refl _, Int.le_refl _, .refl _, ⟨fun x hx => .inl ?_, fun n hn => .inl ?_⟩⟩
+    · rw [← e1]; exact List.mem_map_of_mem hx
+    · unfold gr; rw [← e2]; exact List.mem_map_of_mem hn
+  · obtain ⟨hg', h1, h2, h3, hm, hm', hext, _⟩ := resolveNode_issued hg _ _ _ n k1 k2 hres
+    refine ⟨hg', hm, hm', hext, ⟨fun x hx => ?_, fun m hm => ?_⟩⟩
+    · rcases (mem_geneInsert _ _ _).mp hx with rfl | hx'
+      · exact .inr (by have : x.inn = k2 := congrArg (·.1) hb2; omega)
+      · rcases (mem_geneInsert _ _ _).mp hx' with rfl | hx''
+        · exact .inr (by have : x.inn = k1 := congrArg (·.1) hb1; omega)
+        · exact .inl (by rw [← e1]; exact List.mem_map_of_mem hx'')
+    · rcases (mem_nodeInsert _ _ _).mp hm with rfl | hm'
+      · exact .inr (by have : m.id = n := congrArg (·.1) hn; omega)
+      · exact .inl (by unfold gr; rw [← e2]; exact List.mem_map_of_mem hm')
+
+/-- **C03 (issued numbers are fresh; counters are monotone).** Within a generation whose counters started at
+    `(bi, bn)` (`GenInv`: holds at the start of every generation for the current counters, see `GenInv.start`), each
+    structural mutation leaves the counters monotone, keeps all records, and every gene / node it adds carries a number /
+    id strictly above `(bi, bn)` - hence, by `CounterAbove` at the start of the generation, larger than any number or
+    node id the population held before (`issued_above_pool`). -/
+theorem issued_fresh (bi bn : Int) (g g' : Genome W) (reg reg' : Reg W) (o : MutOpts W) (rs rs' : List Nat) (res : Bool)
+    (hg : GenInv bi bn reg) :
+    (mutateAddLink g reg o rs = .ok ((g', reg', res), rs') → Issued bi bn g reg g' reg') ∧
+    (mutateAddNode g reg o rs = .ok ((g', reg', res), rs') → Issued bi bn g reg g' reg') ∧
+    (mutateConnectSensors g reg rs = .ok ((g', reg', res), rs') → Issued bi bn g reg g' reg') :=
+  ⟨fun h => (mutateAddLink_steps _ _ _ _ _ _ _ _ h).issued hg, fun h => (mutateAddNode_steps _ _ _ _ _ _ _ _ h).issued hg,
+   fun h => (mutateConnectSensors_steps _ _ _ _ _ _ _ h).issued hg⟩
+
+/-- with the counters of the generation start above the whole pool, whatever a mutation adds is above the whole pool -/
+theorem issued_above_pool {bi bn : Int} {g g' : Genome W} (h : IssuedAbove bi bn g g') (B : List Bind) (R : List Role)
+    (hB : ∀ b ∈ B, b.1 ≤ bi) (hR : ∀ p ∈ R, p.1 ≤ bn) :
+    (∀ x ∈ g'.genes, geneBind x ∉ gb g → ∀ b ∈ B, b.1 < x.inn) ∧ (∀ n ∈ g'.nodes, nodeRole n ∉ gr g → ∀ p ∈ R, p.1 < n.id) := by
+  refine ⟨fun x hx hnot b hb => ?_, fun n hn hnot p hp => ?_⟩
+  · rcases h.1 x hx with h1 | h1
+    · exact absurd h1 hnot
+    · have := hB b hb; omega
+  · rcases h.2 n hn with h1 | h1
+    · exact absurd h1 hnot
+    · have := hR p hp; omega
+
+/-! ### C03, third clause: identical requests in one generation receive identical numbers -/
+
+theorem resolveLink_finds {reg reg' : Reg W} (s d : Int) (r : Bool) (w : W) (tn k : Int)
+    (hres : resolveLink reg s d r w tn = (k, reg')) : ∃ i, reg'.records.find? (linkMatch s d r) = some i ∧ i.inn = k := by
+  unfold resolveLink at hres
+  split at hres
+  · rename_i i hf
+    obtain ⟨rfl, rfl⟩ := Prod.mk.inj hres
+    exact ⟨i, hf, rfl⟩
+  · rename_i hf
+    simp only [Reg.nextInnovation] at hres
+    obtain ⟨rfl, rfl⟩ := Prod.mk.inj hres
+    refine ⟨{ typ := 2, inId := s, outId := d, inn := reg.nextInn + 1, inn2 := 0, w := w, traitNum := tn, newNode := 0,
+              oldInn := 0, recur := r }, ?_, rfl⟩
+    simp only [Reg.store, List.find?_append, hf, Option.none_or]
+    rw [List.find?_cons_of_pos]
+    simp [linkMatch]
+
+theorem resolveNode_finds {reg reg' : Reg W} (s d o n k1 k2 : Int)
+    (hres : resolveNode reg s d o = ((n, k1, k2), reg')) :
+    ∃ i, reg'.records.find? (nodeMatch s d o) = some i ∧ i.newNode = n ∧ i.inn = k1 ∧ i.inn2 = k2 := by
+  unfold resolveNode at hres
+  split at hres
+  · rename_i i hf
+    obtain ⟨hnums, rfl⟩ := Prod.mk.inj hres
+    obtain ⟨rfl, hk⟩ := Prod.mk.inj hnums
+    obtain ⟨rfl, rfl⟩ := Prod.mk.inj hk
+    exact ⟨i, hf, rfl, rfl, rfl⟩
+  · rename_i hf
+    simp only [Reg.nextInnovation, Reg.nextNodeId] at hres
+    obtain ⟨hnums, rfl⟩ := Prod.mk.inj hres
+    obtain ⟨rfl, hk⟩ := Prod.mk.inj hnums
+    obtain ⟨rfl, rfl⟩ := Prod.mk.inj hk
+    refine ⟨{ typ := 1, inId := s, outId := d, inn := reg.nextInn + 1, inn2 := reg.nextInn + 1 + 1, w := Scalar.zero,
+              traitNum := 0, newNode := reg.nextNode + 1, oldInn := o, recur := false }, ?_, rfl, rfl, rfl⟩
+    simp only [Reg.store, List.find?_append, hf, Option.none_or]
+    rw [List.find?_cons_of_pos]
+    simp [nodeMatch]
+
+theorem find?_extends {a b : Reg W} (h : RegExtends a b) (p : Innov W → Bool) (i : Innov W)
+    (hf : a.records.find? p = some i) : b.records.find? p = some i := by
+  obtain ⟨suf, e⟩ := h
+  rw [e, List.find?_append, hf]; rfl
+
+/-- **C03 (same request, same numbers).** Sequential executor, one generation (records are only appended, `RegExtends`):
+    a new-link request `(s,d,r)` resolved after an identical request - with any number of other structural mutations in
+    between - receives the identical innovation number and changes nothing in the registry; a split request
+    `(s, d, old number)` (the same split of the same gene) receives the identical node id and both identical numbers. -/
+theorem same_request_same_numbers (reg reg1 reg2 reg3 : Reg W) (s d : Int) (hext : RegExtends reg1 reg2) :
+    (∀ (r : Bool) (w w' : W) (tn tn' k k' : Int),
+        resolveLink reg s d r w tn = (k, reg1) → resolveLink reg2 s d r w' tn' = (k', reg3) → k' = k ∧ reg3 = reg2) ∧
+    (∀ (o n k1 k2 n' k1' k2' : Int),
+        resolveNode reg s d o = ((n, k1, k2), reg1) → resolveNode reg2 s d o = ((n', k1', k2'), reg3) →
+        n' = n ∧ k1' = k1 ∧ k2' = k2 ∧ reg3 = reg2) := by
+  constructor
+  · intro r w w' tn tn' k k' h1 h2
+    obtain ⟨i, hf, rfl⟩ := resolveLink_finds s d r w tn k h1
+    rw [resolveLink_of_found (find?_extends hext _ i hf)] at h2
+    obtain ⟨rfl, rfl⟩ := Prod.mk.inj h2
+    exact ⟨rfl, rfl⟩
+  · intro o n k1 k2 n' k1' k2' h1 h2
+    obtain ⟨i, hf, rfl, rfl, rfl⟩ := resolveNode_finds s d o n k1 k2 h1
+    rw [resolveNode_of_found (find?_extends hext _ i hf)] at h2
+    obtain ⟨hnums, rfl⟩ := Prod.mk.inj h2
+    obtain ⟨rfl, hk⟩ := Prod.mk.inj hnums
+    obtain ⟨rfl, rfl⟩ := Prod.mk.inj hk
+    exact ⟨rfl, rfl, rfl, rfl⟩
+
 end GoNeat.C03
